@@ -354,6 +354,23 @@ func c03Cases(c *h.Ctx) error {
 				if d := c03FirstDiff(b2, ln.After); d >= 0 {
 					c.Fail("header.Header.SetPID", "layout:"+c03FieldAt(d), fmt.Sprintf("after SetPID(%#x): code %s spec %s", uint32(ln.SetPID), h.Hex(b2), h.Hex(ln.After)), smp)
 				}
+				// a second SetPID with a process id that fits 16 bits: both halves are written (PIDHigh at offset 12, PIDLow at
+				// offset 26, MS-CIFS 2.2.3.1), whatever the header held before
+				{
+					small := uint32(ln.SetPID) & 0xFFFF
+					hd.SetPID(types.ULONG(small))
+					b2s, _ := hd.Marshal()
+					c.Exec(1)
+					want := append([]byte(nil), ln.After...)
+					if len(want) == 32 {
+						want[12], want[13] = 0, 0
+						want[26], want[27] = byte(small), byte(small>>8)
+					}
+					if !bytes.Equal(b2s, want) || uint32(hd.GetPID()) != small {
+						c.Fail("header.Header.SetPID", "layout-after-second-set:"+c03FieldAt(c03FirstDiff(b2s, want)), fmt.Sprintf("SetPID(%#x) after SetPID(%#x): code %s spec %s, GetPID %#x", small, uint32(ln.SetPID), h.Hex(b2s), h.Hex(want), uint32(hd.GetPID())), smp)
+					}
+					hd.SetPID(types.ULONG(ln.SetPID)) // back to the value the following steps expect
+				}
 				// the security features are changed IN PLACE through the pointer the header holds (the signing flow: encode,
 				// compute the MAC, SetSecuritySignature, encode again; a connectionless retransmit: SequenceNumber++): the next
 				// encoding carries the new 8 bytes and is otherwise unchanged
